@@ -30,10 +30,11 @@ RULE = ('every string of length <= 3 (quick) / <= 4 (thorough) over the 24-chara
         'scripts including scripts that call a canary; non-trivial = distinct input string containing "=" ')
 ASSUMPTIONS = ['termination is decided as a logical-step budget of 20000 + 2000 * len(input) executed lines of fsic/parser.py (two orders above the largest observed)',
                'identical duplicate statements count once (they are merged into one equation by design)',
-               'regular-expression matching runs in C and is bounded only by the per-shard wall-clock watchdog (inconclusive if it fires)']
+               'regular-expression matching runs in C, invisible to the step budget: scripts built around one long token (up to 160 characters) are parsed in a child whose '
+               'CPU time (RLIMIT_CPU, 20 CPU-seconds per batch of 48 one-line scripts; the unchanged tree needs milliseconds) decides "does not terminate"; wall-clock watchdogs only ever yield "inconclusive"']
 ANCHORS = [('fsic/parser.py', 'split_equations_iter'), ('fsic/parser.py', 'parse_terms'), ('fsic/parser.py', 'parse_equation_terms'),
            ('fsic/parser.py', 'parse_equation'), ('fsic/parser.py', 'parse_model'), ('fsic/parser.py', 'build_model')]
-REQUIRED_COUNTERS = {'inputs_parsed': 5000, 'accepted_then_built': 200, 'statements_accounted': 200, 'canary_scripts': 20, 'state_digests_compared': 5000}
+REQUIRED_COUNTERS = {'long_token_inputs_parsed': 500, 'inputs_parsed': 5000, 'accepted_then_built': 200, 'statements_accounted': 200, 'canary_scripts': 20, 'state_digests_compared': 5000}
 LEVEL_TEXT = ('Exhaustive short strings / token sequences and mutation fuzzing under an exception-class monitor, a logical-step budget, '
               'build+instantiate follow-up, side-effect canaries/audit hook/state digests and independent statement accounting.')
 LEVEL_NOTE = 'Trusted: the 20-line reference statement splitter; CPython sys.monitoring / audit hooks. Exhaustive only up to the stated lengths.'
@@ -192,6 +193,23 @@ def one_input(ctx, budget, script, kind, errors, expect_canary=False):
         if len(recorded) != len(distinct) + verbatim_blocks:
             ctx.violation('statement-silently-discarded', f'{script!r}: {len(stmts)} statement(s) ({len(distinct)} distinct equations + {verbatim_blocks} verbatim) but the built model has {len(recorded)} code block(s)', case)
             return
+    if symbols is not None:
+        # the caller owns the returned list: emptying it must not reach a later call on the same input
+        image = list(symbols)
+        symbols.clear()
+        budget.reset(20000 + 2000 * len(script))
+        try:
+            with warnings.catch_warnings():
+                warnings.simplefilter('ignore')
+                again = fsic.parse_model(script)
+        except mon.BudgetExceeded:
+            raise
+        except Exception as e:
+            again = e
+        ctx.count('repeat_parses_compared')
+        if again is symbols or again != image:
+            ctx.violation('parse-carries-state-across-calls', f'parse_model({script!r}) a second time (after the first result was emptied by its caller) gives {again!r:.200}', case)
+            return
     ctx.count('state_digests_compared')
     if digest() != d0:
         ctx.violation('global-state-changed', f'parsing/building {script!r} changed global state (warnings filters / np.geterr / cwd / parser module globals)', case)
@@ -276,9 +294,103 @@ def run_shard(ctx):
             if rng.random() < 0.2:
                 one_input(ctx, budget, script, 'valid', errors)
             one_input(ctx, budget, mutate(rng, script), 'mutation', errors)
+    # 5. long tokens in a CPU-time bounded child (regular-expression matching is invisible to the step budget)
+    long_tokens(ctx)
+
+
+LONG_BASE = 'real_household_disposable_income_per_capita_after_housing_costs_and_transfers_'
+CPU_BUDGET = 20   # CPU-seconds for one batch of a few dozen one-line scripts (the unchanged tree needs milliseconds)
+
+
+def long_token_scripts():
+    """Scripts built around one long token (identifier, dotted name, number, blank run): the part of 'terminates'
+    that the line-level step budget cannot see, because regular-expression matching runs in C."""
+    out = []
+    for L in (12, 20, 28, 36, 48, 64, 96, 160):
+        toks = [(LONG_BASE * 3)[:L], 'x' + '1' * L, '_' * L + 'a', 'A' * L, 'np.' + 'a' * L, ('ab.' * L)[:L] + 'c', 'a' + '_1' * (L // 2), '1' * L, '0.' + '5' * L,
+                '1e' + '0' * L, 'a' + '.' * (L // 4) + 'b']
+        for T in toks:
+            for form in ('Y = {T}', 'Y = {T}[-1]', 'Y = {{{T}}}', 'Y = <{T}>', 'Y = {T}(X)', 'Y = {T} (X)', '{T} = X', 'Y = X + {T} * 2\nZ = {T}[-2]', 'Y = `{T}`',
+                         'Y = {T} {T}', 'Y = {T}.{T}', '# {T}\nY = X', 'Y = X[{T}]', 'Y = X +' + ' ' * L + '{T}', 'Y = ({T}\n)', "Y = X['{T}']"):
+                out.append(form.replace('{T}', T) if '{{' not in form else form.format(T=T))
+    return out
+
+
+def _parse_batch(scripts, wfd):
+    import resource
+    import fsic
+    from fsic.exceptions import ParserError, SymbolError
+    resource.setrlimit(resource.RLIMIT_CPU, (CPU_BUDGET, CPU_BUDGET + 5))
+    for k, script in enumerate(scripts):
+        os.write(wfd, b'S%d\n' % k)
+        try:
+            syms = fsic.parse_model(script)
+            r = 'ok'
+        except (ParserError, SymbolError, IndentationError):
+            r = 'own'
+        except BaseException as e:  # noqa: BLE001
+            r = 'foreign:' + type(e).__name__
+        os.write(wfd, b'R%d %s\n' % (k, r.encode()))
+
+
+def long_tokens(ctx):
+    import select
+    import signal
+    import time
+    scripts = long_token_scripts()
+    batch = 48
+    for b in range(0, len(scripts), batch):
+        if not ctx.mine(b // batch):
+            continue
+        chunk = scripts[b:b + batch]
+        rfd, wfd = os.pipe()
+        pid = os.fork()
+        if pid == 0:
+            try:
+                os.close(rfd)
+                _parse_batch(chunk, wfd)
+                os._exit(0)
+            except BaseException:  # noqa: BLE001
+                os._exit(97)
+        os.close(wfd)
+        data = b''
+        deadline = time.time() + 600          # wall-clock watchdog: only ever "inconclusive"
+        timed_out = False
+        while True:
+            r, _, _ = select.select([rfd], [], [], max(0.0, deadline - time.time()))
+            if not r:
+                timed_out = True
+                os.kill(pid, signal.SIGKILL)
+                break
+            chunk_data = os.read(rfd, 65536)
+            if not chunk_data:
+                break
+            data += chunk_data
+        os.close(rfd)
+        _, status, ru = os.wait4(pid, 0)
+        lines = data.decode(errors='replace').split('\n')
+        started = [int(x[1:]) for x in lines if x.startswith('S')]
+        results = {int(x[1:].split()[0]): x.split()[1] for x in lines if x.startswith('R') and len(x.split()) > 1}
+        ctx.count('long_token_inputs_parsed', len(results))
+        for k, r in results.items():
+            ctx.evaluation(chunk[k], nontrivial='=' in chunk[k])
+            if r.startswith('foreign:'):
+                ctx.violation('foreign-exception', f'parse_model({chunk[k][:120]!r}...) raised {r[8:]}', {'script': chunk[k], 'kind': 'long-token'})
+        if timed_out:
+            ctx.inconclusive_because(f'long-token batch {b // batch}: wall-clock watchdog (600 s) fired with {ru.ru_utime:.1f} CPU-seconds used')
+        elif os.WIFSIGNALED(status) and os.WTERMSIG(status) in (signal.SIGXCPU, signal.SIGKILL):
+            k = started[-1] if started else 0
+            ctx.violation('parse-does-not-terminate', f'parse_model on a {len(chunk[k])}-character script did not return within {CPU_BUDGET} CPU-seconds '
+                          f'(the batch of {len(results)} scripts before it took milliseconds): {chunk[k][:160]!r}', {'script': chunk[k], 'kind': 'long-token'})
+        elif not (os.WIFEXITED(status) and os.WEXITSTATUS(status) == 0):
+            ctx.violation('parse-child-died', f'child parsing long-token scripts ended with status {status} after {chunk[started[-1]][:120] if started else None!r}', {'script': chunk[started[-1]] if started else '', 'kind': 'long-token'})
 
 
 def replay(ctx, case):
+    if case.get('kind') == 'long-token':
+        ctx.evaluation(case['script'], nontrivial=True)
+        ctx.inconclusive_because('long-token cases are replayed by re-running the shard (CPU-time bounded child); the script is in the replay file')
+        return
     import fsic
     from fsic.exceptions import ParserError, SymbolError
     install_canaries()
